@@ -817,9 +817,12 @@ impl<'g, 's> LRTable<'g, 's> {
                                     match (&prod.assoc, &follow_term.assoc) {
                                         (Associativity::Left, Associativity::None)
                                         | (_, Associativity::Left) => {
-                                            // Override SHIFT with this REDUCE
-                                            assert!(actions.len() == 1);
-                                            actions.pop();
+                                            // Override SHIFT with this REDUCE. Reductions
+                                            // already registered for this terminal stay and
+                                            // are handled as R/R conflicts below.
+                                            actions.retain(|x| {
+                                                !matches!(x, Action::Shift(_) | Action::Accept)
+                                            });
                                         }
                                         (Associativity::Right, Associativity::None)
                                         | (_, Associativity::Right) => {
@@ -847,9 +850,12 @@ impl<'g, 's> LRTable<'g, 's> {
                                 }
                                 Ordering::Greater => {
                                     // This item operation priority is higher =>
-                                    // override with reduce
-                                    assert!(actions.len() == 1);
-                                    actions.pop();
+                                    // override with reduce. Reductions already
+                                    // registered for this terminal stay and are
+                                    // handled as R/R conflicts below.
+                                    actions.retain(|x| {
+                                        !matches!(x, Action::Shift(_) | Action::Accept)
+                                    });
                                 }
                             }
                         }
